@@ -343,6 +343,56 @@ func (c *Ctx) ruleCondRow() {
 				}
 			}
 		}
+		// no decoded expression is dropped: a 4-wide row yields no Condition only when its
+		// expression was a nested row that decoded to neither an initialised Stack nor an
+		// initialised Condition (an empty Stack is still a Stack)
+		{
+			width4 := c.eng.tt.mk(Term{K: "B", S: "==", A: c.intConst(4), B: c.lenT(c.param(fa, 0))})
+			mds := c.findCalls(fn, "marshalDefault")
+			nNone := 0
+			for _, rs := range fa.rets {
+				if rs.st.dead {
+					continue
+				}
+				if v, k := fa.knownTerm(rs.st, aTR, width4); k && !v {
+					continue
+				}
+				built := false
+				for _, call := range conds {
+					if d, _ := rs.st.get(aDID, c.eng.tt.mk(Term{K: "V", V: call})); d {
+						built = true
+					}
+				}
+				if built {
+					continue
+				}
+				nNone++
+				okNone := false
+				for _, md := range mds {
+					sFalse, cFalse := false, false
+					for _, ic := range c.findCalls(fn, "Stack.IsInit", "Condition.IsInit") {
+						at := fa.term(rs.st, ic.Call.Args[0])
+						if v, k := fa.knownTerm(rs.st, aTR, fa.term(rs.st, ic)); k && !v {
+							if at == fa.callResultTerm(rs.st, md, 0) {
+								sFalse = true
+							}
+							if at == fa.callResultTerm(rs.st, md, 1) {
+								cFalse = true
+							}
+						}
+					}
+					if sFalse && cFalse {
+						okNone = true
+					}
+				}
+				if !okNone {
+					problems = append(problems, "a well-formed row can yield no Condition although its expression may have decoded to an initialised Stack or Condition (IsInit() of both decoded results is not known false there)")
+				}
+			}
+			if nNone == 0 {
+				problems = append(problems, "no path yields 'no Condition' (the refusal of a malformed nested row is gone)")
+			}
+		}
 		// every type assertion on a row element is of the comma-ok form
 		for _, b := range fn.Blocks {
 			for _, in := range b.Instrs {
@@ -1100,4 +1150,139 @@ func structFieldNames(t types.Type) []string {
 		out = append(out, st.Field(i).Name())
 	}
 	return out
+}
+
+// ruleMarshalUnlimited: the stacks the decoder creates carry no capacity: every
+// call of a Stack constructor reachable from marshalDefault passes no capacity
+// argument.  A capacity would make the reconstruction observably different
+// (Cap(), refused pushes) and, if smaller than the number of entries pushed,
+// silently drop entries.
+func (c *Ctx) ruleMarshalUnlimited() {
+	rep := c.rep
+	root := c.anchor("R-MARSHAL", "marshalDefault")
+	if root == nil {
+		return
+	}
+	ctors := map[string]bool{"And": true, "Or": true, "Not": true, "List": true, "Basic": true}
+	n := 0
+	for _, fn := range c.reach(root) {
+		if ctors[relName(fn)] {
+			continue // the constructors' own bodies
+		}
+		ord := newOrdinal()
+		for _, b := range fn.Blocks {
+			for _, in := range b.Instrs {
+				call, ok := in.(*ssa.Call)
+				if !ok {
+					continue
+				}
+				cal := c.p.callee(&call.Call)
+				if cal == nil || !c.p.inPkg(cal) || !ctors[relName(cal)] {
+					continue
+				}
+				n++
+				construct := ord.next("constructor " + relName(cal))
+				pos := c.p.instrPos(in)
+				good := len(call.Call.Args) == 1
+				if good {
+					k, isC := call.Call.Args[0].(*ssa.Const)
+					good = isC && k.IsNil()
+				}
+				if good {
+					rep.ok("R-MARSHAL", relName(fn), construct, pos, "the decoded stack is created without a capacity")
+				} else {
+					rep.bad("R-MARSHAL", relName(fn), construct, pos, "the decoder creates a stack with a capacity argument: the reconstruction would report a capacity the original never had and may drop entries")
+				}
+			}
+		}
+	}
+	if n < 5 {
+		rep.bad("R-MARSHAL", "marshalDefault", "constructors", c.p.pos(root.Pos()), fmt.Sprintf("only %d constructor calls found in the decoder's scope (expected the five kinds)", n))
+	}
+}
+
+// ruleMarshalGain: "an already initialised receiver gains the decoded Stack or
+// Condition as one new element".  On the built-in path Marshal pushes the
+// decoded value; a receiver that is full, read-only or refuses it by policy
+// gains nothing, and that must not pass for success: wherever Marshal returns
+// after such a push with a possibly nil error, the receiver's Len() is known to
+// differ from the Len() read before the push.
+func (c *Ctx) ruleMarshalGain() {
+	rep := c.rep
+	fn := c.anchor("R-MARSHAL", "(*Stack).Marshal")
+	if fn == nil {
+		return
+	}
+	pos := c.p.pos(fn.Pos())
+	fa := c.eng.analyze(fn, nil)
+	pushes := c.findCalls(fn, "Stack.Push")
+	if len(pushes) == 0 {
+		rep.bad("R-MARSHAL", "(*Stack).Marshal", "receiver gains the decoded value", pos, "no Push of the decoded value into an initialised receiver found")
+		return
+	}
+	// comparisons of two Len() readings of the receiver
+	isLen := func(v ssa.Value) bool {
+		call, ok := v.(*ssa.Call)
+		return ok && c.calleeName(&call.Call) == "Stack.Len"
+	}
+	var lenCmps []*ssa.BinOp
+	lenCalls := c.findCalls(fn, "Stack.Len")
+	for _, b := range fn.Blocks {
+		for _, in := range b.Instrs {
+			if bo, ok := in.(*ssa.BinOp); ok && (bo.Op == token.EQL || bo.Op == token.NEQ) && isLen(bo.X) && isLen(bo.Y) && bo.X != bo.Y {
+				lenCmps = append(lenCmps, bo)
+			}
+		}
+	}
+	n := 0
+	bad := false
+	for _, rs := range fa.rets {
+		if rs.st.dead {
+			continue
+		}
+		pushed := false
+		for _, pc := range pushes {
+			if d, _ := rs.st.get(aDID, c.eng.tt.mk(Term{K: "V", V: pc})); d {
+				pushed = true
+			}
+		}
+		if !pushed {
+			continue
+		}
+		if v, known := fa.nonNil(rs.st, rs.ret.Results[0]); known && v {
+			continue // an error is reported
+		}
+		n++
+		grew := false
+		for _, cmp := range lenCmps {
+			if v, known := fa.knownTerm(rs.st, aTR, fa.term(rs.st, cmp)); known && v == (cmp.Op == token.NEQ) {
+				grew = true
+			}
+		}
+		if !grew {
+			// any other spelling of the test (<=, >, a difference): the two readings are provably different
+			for _, c1 := range lenCalls {
+				for _, c2 := range lenCalls {
+					if c1 == c2 {
+						continue
+					}
+					t1, t2 := fa.term(rs.st, c1), fa.term(rs.st, c2)
+					if c.provesFact(fa, rs.st, Fact{aTR, c.eng.tt.mk(Term{K: "B", S: "<", A: t1, B: t2}), true}, nil) {
+						grew = true
+					}
+				}
+			}
+		}
+		if !grew {
+			bad = true
+		}
+	}
+	switch {
+	case bad:
+		rep.bad("R-MARSHAL", "(*Stack).Marshal", "receiver gains the decoded value", pos, "Marshal can return a nil error after pushing into an initialised receiver without having observed that its length changed (a full or read-only receiver would silently gain nothing)")
+	case n == 0:
+		rep.bad("R-MARSHAL", "(*Stack).Marshal", "receiver gains the decoded value", pos, "no successful return follows the push into an initialised receiver")
+	default:
+		rep.ok("R-MARSHAL", "(*Stack).Marshal", "receiver gains the decoded value", pos, fmt.Sprintf("on each of the %d successful returns after the push, Len() is known to differ from the Len() read before it", n))
+	}
 }
